@@ -381,8 +381,8 @@ class InclusiveMulticastEthernetTag(EVPN):
         offset += 1
         # ip address
         if ip_addr_len != 0:
-            route['ip'] = str(
-                netaddr.IPAddress(int(binascii.b2a_hex(value[offset: int(offset + ip_addr_len / 8)]), 16)))
+            route['ip'] = str(netaddr.IPAddress(
+                int(binascii.b2a_hex(value[offset: int(offset + ip_addr_len / 8)]), 16), 6 if ip_addr_len == 128 else 4))
         return route
 
     @classmethod
@@ -426,7 +426,8 @@ class EthernetSegment(EVPN):
         offset += 1
         # ip address
         if ip_addr_len != 0:
-            route['ip'] = str(netaddr.IPAddress(int(binascii.b2a_hex(value[offset: offset + ip_addr_len // 8]), 16)))
+            route['ip'] = str(netaddr.IPAddress(
+                int(binascii.b2a_hex(value[offset: offset + ip_addr_len // 8]), 16), 6 if ip_addr_len == 128 else 4))
         return route
 
     @classmethod
@@ -492,9 +493,11 @@ class IPRoutePrefix(EVPN):
             # ipv6
             offset = 16
 
-        route['prefix'] = '%s/%s' % (str(netaddr.IPAddress(int(binascii.b2a_hex(value[0: offset]), 16))), ip_addr_len)
+        version = 6 if offset == 16 else 4
+        route['prefix'] = '%s/%s' % (
+            str(netaddr.IPAddress(int(binascii.b2a_hex(value[0: offset]), 16), version)), ip_addr_len)
         value = value[offset:]
-        route['gateway'] = str(netaddr.IPAddress(int(binascii.b2a_hex(value[0: offset]), 16)))
+        route['gateway'] = str(netaddr.IPAddress(int(binascii.b2a_hex(value[0: offset]), 16), version))
         value = value[offset:]
 
         route['label'] = cls.parse_mpls_label_stack(value)
